@@ -26,7 +26,15 @@ def forwarders(repo):
                     continue
                 if not all(k.arg is None or isinstance(k.value, ast.Name) for k in call.keywords):
                     continue
-                out[fn.name] = dict(target=f"numpoly.{f.attr}", args=[a.id for a in call.args],
+                defaults = {}
+                pos = fn.args.args
+                for a, d in zip(pos[len(pos) - len(fn.args.defaults):], fn.args.defaults):
+                    try:
+                        defaults[a.arg] = ast.literal_eval(d)
+                    except Exception:
+                        pass
+                static = any(isinstance(d, ast.Name) and d.id == "staticmethod" for d in fn.decorator_list)
+                out[fn.name] = dict(target=f"numpoly.{f.attr}", args=[a.id for a in call.args], defaults=defaults, static=static,
                                     kwargs={k.arg: k.value.id for k in call.keywords if k.arg},
                                     star_kwargs=[k.value.id for k in call.keywords if k.arg is None],
                                     params=[a.arg for a in fn.args.args], lineno=fn.lineno)
